@@ -317,6 +317,9 @@ func addrWorld(kind string) *world {
 			open()
 			ps[0].close()
 			sched.BlockUntil(func() bool { return w.conns[0].closes > 0 })
+			sched.WaitIdle()
+			churnPools(4) // zone strings / address buffers of the released connection went back to pools
+			churnPools(8)
 			open()
 			ps[1].send([]byte("again"))
 			ps[1].recv(7)
